@@ -290,6 +290,10 @@ fn run_c15(thorough: bool, ev: &mut Evidence, t0: Instant) {
         let o = e1::E1Opts { prop: id, checks: PARSE_LINK, move_number: 2, deadline, chunk: 1, roots_only: !thorough, max_turns: 1 };
         ev.families.push(e1::run_family(&fs, &if thorough { e1::E1Opts { checks: C15, ..o } } else { o }));
     }
+    // setup states and finished set-ups
+    ev.families.push(e3::run_trie(id, PARSE_LINK, "", if thorough { 6 } else { 5 }, "Gold sub-trie from the empty board (every setup state printed and parsed back)"));
+    ev.families.push(e3::run_trie(id, PARSE_LINK, "rhrdrcremrcrdrhr", if thorough { 5 } else { 4 }, "Silver sub-trie after Gold's order rhrdrcremrcrdrhr"));
+    ev.families.push(e3::run_trie(id, PARSE_LINK, "cdhmehdcrrrrrrrrrrrrrrhd", 15, "the last 8 placements of Silver after a fixed prefix, down to the start of play"));
     ev.nontrivial_rule = "strings: every string of the stated grammar / length is one case, non-trivial = oversized diagrams + accepted strings; states: every visited state printed and parsed back (counter parse_links)".into();
     ev.nontrivial_keys = vec!["c15_oversized_diagrams", "parse_links"];
 }
